@@ -124,6 +124,8 @@ pub fn build_pass_0(
 const MAX_EXPANSIONS: u64 = 500_000;
 // lines other than instructions that macro bodies may place, beyond one per flash word
 const MAX_EXPANDED_ITEMS: u64 = 1_000_000;
+// messages of one program while macros are expanded
+const MAX_MESSAGES: usize = 10_000;
 // longest line a macro body may grow to when its arguments are substituted
 const MAX_EXPANDED_LINE: usize = 4096;
 
@@ -269,6 +271,14 @@ fn macro_expand(
             include_depth: 0,
         };
         parse_iter(&mut iter, &parse_context)?;
+        // macros that multiply themselves must not fill the memory with messages either
+        if context.messages.borrow().len() > MAX_MESSAGES {
+            bail!(
+                "macros print too many messages (more than {}), {}",
+                MAX_MESSAGES,
+                line
+            );
+        }
     } else {
         bail!("call undefined macro {} on {}", macro_name, line);
     }
